@@ -653,13 +653,19 @@ func (r *Recorder) publishedOrGenesis(v *View, env Env) bool {
 	base, _ := SplitDID(v.DID)
 	for _, a := range env.DID {
 		if a.DID == base && a.State == HexOf256(st) {
-			if a.Err || a.NoStateInfo {
+			if a.Err {
 				return false
 			}
-			if a.Published != nil && *a.Published {
-				return true
+			// the FIRST Iden3StateInfo2023 method decides
+			for _, m := range a.Methods() {
+				if m.StateInfo {
+					if m.Published != nil && *m.Published {
+						return true
+					}
+					return id != nil && gen != nil && *gen
+				}
 			}
-			return id != nil && gen != nil && *gen
+			return false
 		}
 	}
 	return false
@@ -793,14 +799,19 @@ func (s *Shard) envCoq(v *View, env Env) string {
 			continue // a state that is not 32 bytes of hex can never be asked for
 		}
 		ans := "DErr"
-		switch {
-		case a.Err:
-		case a.NoStateInfo:
-			ans = "(DDoc None)"
-		case a.Published == nil:
-			ans = "(DDoc (Some None))"
-		default:
-			ans = fmt.Sprintf("(DDoc (Some (Some %s)))", coqgen.Bool(*a.Published))
+		if !a.Err {
+			var vms []string
+			for _, m := range a.Methods() {
+				switch {
+				case !m.StateInfo:
+					vms = append(vms, "VMOther")
+				case m.Published == nil:
+					vms = append(vms, "VMStateInfo None")
+				default:
+					vms = append(vms, fmt.Sprintf("VMStateInfo (Some %s)", coqgen.Bool(*m.Published)))
+				}
+			}
+			ans = "(did_doc [" + strings.Join(vms, ";") + "])"
 		}
 		ds = append(ds, fmt.Sprintf("((%d, %s), %s)", s.Rec.DIDNum(a.DID), coqgen.Limbs(h.Z), ans))
 	}
